@@ -364,6 +364,20 @@ pub fn judge_with(
                 }
                 Err(e) => return Err(format!("{}: header over-consumed ({:?})", what(), e)),
             }
+            // the same header with nothing after it (the data ends with the header, padded with
+            // zero bits to the byte boundary): a complete header needs no bit beyond its own
+            let alone = bits.to_bytes();
+            let mut r2 = H263Reader::from_source(&alone[..]);
+            match guard(|| parse(&mut r2)).map_err(|p| format!("{}: decode_picture panicked on the header alone: {}", what(), p))? {
+                Ok(Some(p2)) => {
+                    let got2 = observe(&p2);
+                    if &got2 != f {
+                        return Err(format!("{}: the header parses differently when the data ends with it\n   parsed:  {:?}\n   encoded: {:?}", what(), got2, f));
+                    }
+                }
+                Ok(None) => return Err(format!("{}: valid header, alone in its source, parsed as 'not a picture'", what())),
+                Err(e) => return Err(format!("{}: complete header of {} bits rejected when nothing follows it in the source: {:?}", what(), hdr_len, e)),
+            }
             Ok(Parsed { picture: Some(pic), class: "accepted, all fields equal" })
         }
         Expected::Reject(why) => match res {
@@ -1177,13 +1191,16 @@ fn state_case(g: &mut Gen, cfg: &PicCfg) -> Verdict {
     p.bci = Bci::Absent;
     p.cpfmt = Cpfmt { par: g.range(1, 5) as u8, pwi, marker: true, phi, epar: (1, 1) };
     p.rtype = false;
+    // a third of the decoders have the scalability option on: every PLUSPTYPE header then carries
+    // an enhancement-layer number (and, with OPPTYPE, a reference-layer number)
+    let scal = g.chance(1, 3);
     let mut ih = base_header(Kind::Plus(p.clone()));
     ih.tr = g.byte();
     ih.quant = gen_quant(g);
     let mb_hdr_i = Header::standard(PicType::I, Size::Custom16(w as u16, h as u16), ih.quant);
     let total = ((w + 15) / 16) * ((h + 15) / 16);
     let mut wi = BitWriter::new();
-    ih.write(false, &Inherited::default(), &mut wi);
+    ih.write(scal, &Inherited::default(), &mut wi);
     for _ in 0..total {
         let mb = gen_intra_mb(g, &mb_hdr_i, false, false);
         encode_mb(&mb, &mb_hdr_i, &mut wi);
@@ -1191,7 +1208,31 @@ fn state_case(g: &mut Gen, cfg: &PicCfg) -> Verdict {
     // one to three P pictures in a row that do not restate the format (UFEP=0)
     let n_p = 1 + g.weighted(&[3, 3, 2]);
     let mut pictures: Vec<(String, Vec<u8>, u8, u8, &'static str)> = vec![("I".into(), wi.to_bytes(), ih.tr, ih.quant, "IFrame")];
+    let mut rejected_between = 0;
     for k in 0..n_p {
+        if g.chance(1, 3) {
+            // in between: a predicted picture that restates ANOTHER size and needs prediction - it
+            // is rejected (its reference has the wrong size) and must leave no trace: the pictures
+            // after it still inherit the size of the last *decoded* picture
+            let mut pr = p.clone();
+            pr.ptype_code = 1;
+            let (ow, oh) = (if pwi < 15 { pwi + 1 } else { pwi - 1 }, if phi < 12 { phi + 1 } else { phi - 1 });
+            pr.cpfmt = Cpfmt { par: 2, pwi: ow, marker: true, phi: oh, epar: (1, 1) };
+            let mut rh = base_header(Kind::Plus(pr));
+            rh.tr = g.byte();
+            rh.quant = gen_quant(g);
+            let (rw, rhh) = ((ow as usize + 1) * 4, oh as usize * 4);
+            let mb_hdr_r = Header::standard(PicType::P, Size::Custom16(rw as u16, rhh as u16), rh.quant);
+            let mut wr = BitWriter::new();
+            rh.write(scal, &Inherited { mode_bits: Some(mode_bits) }, &mut wr);
+            let rtotal = ((rw + 15) / 16) * ((rhh + 15) / 16);
+            encode_mb(&Mb::new(MbKind::Inter), &mb_hdr_r, &mut wr);
+            for _ in 1..rtotal {
+                encode_mb(&Mb::not_coded(), &mb_hdr_r, &mut wr);
+            }
+            pictures.push((format!("(must be rejected) P restating {}x{}", rw, rhh), wr.to_bytes(), 0, 0, "REJECT"));
+            rejected_between += 1;
+        }
         let mut p2 = p.clone();
         p2.ufep = 0;
         p2.ptype_code = 1;
@@ -1200,7 +1241,7 @@ fn state_case(g: &mut Gen, cfg: &PicCfg) -> Verdict {
         ph.quant = gen_quant(g);
         let mb_hdr_p = Header::standard(PicType::P, Size::Custom16(w as u16, h as u16), ph.quant);
         let mut wp = BitWriter::new();
-        ph.write(false, &Inherited { mode_bits: Some(mode_bits) }, &mut wp);
+        ph.write(scal, &Inherited { mode_bits: Some(mode_bits) }, &mut wp);
         for _ in 0..total {
             let mb = gen_inter_mb(g, &mb_hdr_p, false);
             encode_mb(&mb, &mb_hdr_p, &mut wp);
@@ -1211,10 +1252,21 @@ fn state_case(g: &mut Gen, cfg: &PicCfg) -> Verdict {
     // previous picture: whatever the state has decoded so far must not leak into the result
     let probe = gen_std_header(g, true);
     g.describe(|| json!({"plusptype_custom_format": [w, h], "pictures": pictures.iter().map(|p| json!({"what": p.0, "hex": crate::bits::hex(&p.1)})).collect::<Vec<_>>(), "then_parse_picture_without_previous": format!("{:?}", probe)}));
-    let mut st = H263State::new(options(Mode::Standard, false));
+    let mut st = H263State::new(options(Mode::Standard, scal));
     let mut key = 0u64;
     for (name, bytes, tr, q, ty) in pictures.iter() {
         key = key.rotate_left(7) ^ fnv64(bytes);
+        if *ty == "REJECT" {
+            let before = last_picture(&st).map(|l| (l.tr, l.format_dims, l.y_len));
+            match decode_bytes(&mut st, bytes) {
+                Outcome::Err(_) => {}
+                o => return Verdict::fail(format!("{}: predicted from a {}x{} reference, gave {}", name, w, h, o.short())),
+            }
+            if last_picture(&st).map(|l| (l.tr, l.format_dims, l.y_len)) != before {
+                return Verdict::fail(format!("{}: the rejected picture changed what the decoder reports as its most recent picture", name));
+            }
+            continue;
+        }
         match decode_bytes(&mut st, bytes) {
             Outcome::Ok => {}
             o => return Verdict::fail(format!("valid PLUSPTYPE {} picture ({}x{} custom format) not decoded: {}", name, w, h, o.short())),
@@ -1227,8 +1279,8 @@ fn state_case(g: &mut Gen, cfg: &PicCfg) -> Verdict {
             ));
         }
     }
-    let exp = expect_std(&probe, false, &Inherited::default());
-    let bits = std_bits(&probe, false, &Inherited::default());
+    let exp = expect_std(&probe, scal, &Inherited::default());
+    let bits = std_bits(&probe, scal, &Inherited::default());
     key = key.rotate_left(7) ^ fnv64(&bits.to_bytes());
     let what = || format!("H263State::parse_picture(reader, None) after {} decoded pictures, header {:?}", pictures.len(), probe);
     let class = match judge_with(&bits, &mut |r| st.parse_picture(r, None), &exp, &what) {
@@ -1236,6 +1288,12 @@ fn state_case(g: &mut Gen, cfg: &PicCfg) -> Verdict {
         Err(m) => return Verdict::fail(m),
     };
     let mut l: Labels = vec!["state: PLUSPTYPE custom format, then format-less P"];
+    if scal {
+        l.push("state: decoder with the scalability option (layer numbers in every PLUSPTYPE header)");
+    }
+    if rejected_between > 0 {
+        l.push("state: a rejected picture restating another size before a format-less P");
+    }
     if mode_bits != 0 {
         l.push("state: history with an OPPTYPE mode (RPS) in force");
     }
